@@ -52,12 +52,20 @@ void of_galois_field_2_4_addmul1_compact(gf *dst, gf *src, gf c, int sz)
 	int i;
 	for (i = 0; i < sz; i++) dst[i] ^= of_gf_2_4_opt_mul_table[c][src[i]];
 }
-extern const gf of_gf_mul_table[256][256];   /* the static table of of_reed-solomon_gf_2_8.c (static data keeps its plain name in the goto binary) */
+#ifdef OPENFEC_VERIF_GF28_TABLES
+/* codec 1: of_addmul1 and its table are static in of_reed-solomon_gf_2_8.c.  Static data cannot be
+ * named from another translation unit, so the stub reads its own copy of the very same generated
+ * header the library is built with (hook 2). */
+#ifndef GF_SIZE
+#define GF_SIZE 255
+#endif
+#include OPENFEC_VERIF_GF28_TABLES
 void __CPROVER_file_local_of_reed_solomon_gf_2_8_c_of_addmul1(gf *dst, gf *src, gf c, int sz)
 {
 	int i;
 	for (i = 0; i < sz; i++) dst[i] ^= of_gf_mul_table[c][src[i]];
 }
+#endif
 #endif
 
 #endif
